@@ -9,6 +9,7 @@ Import ListNotations.
 Local Open Scope nat_scope.
 
 Ltac leq := repeat (first [rewrite app_length | progress cbn [length]]); lia.
+Ltac list_eq ::= repeat (progress cbn [app] || rewrite <- app_assoc); reflexivity.
 
 (* ---------- literals ---------- *)
 Definition lit_ast (l : xlit) : literal :=
@@ -150,6 +151,7 @@ Section BE.
   Variable spair : nat -> sel -> pair rname.
   Variable sgood : sel -> Prop.
   Variable sast : sel -> selector.
+  Variable patok : fnarg -> Prop.   (* what is asked of the pattern argument of match/search (True for the round trip) *)
   Variable sfuel : sel -> nat.
   Variable inp : str.
   Hypothesis b_sel : forall f pre s rest,
@@ -171,6 +173,207 @@ Section BE.
   Definition single_or {A} (wrap : list A -> A) (l : list A) : A :=
     match l with [x] => x | _ => wrap l end.
 
+  (* ---------- function calls ---------- *)
+  Notation xfn := (xfn sel).
+  Notation xarg := (xarg sel).
+  Notation ftext := (ftext sel stext).
+  Notation argtext := (argtext sel stext).
+  Notation fpair := (fpair sel stext spair).
+  Notation argpair := (argpair sel stext spair).
+
+  Lemma ftext_fn1 k a : ftext (XFn1 _ k a) = fn1_name k ++ 40%N :: argtext a ++ [41%N].
+  Proof. reflexivity. Qed.
+  Lemma ftext_fn2 k a b : ftext (XFn2 _ k a b) = fn2_name k ++ 40%N :: argtext a ++ 44%N :: argtext b ++ [41%N].
+  Proof. reflexivity. Qed.
+  Lemma fpair_fn1 pos k a :
+    fpair pos (XFn1 _ k a)
+    = Pair R_function_expr pos (pos + length (ftext (XFn1 _ k a)))
+           [Pair R_function_name pos (pos + length (fn1_name k)) []; argpair (pos + length (fn1_name k) + 1) a].
+  Proof. reflexivity. Qed.
+  Lemma fpair_fn2 pos k a b :
+    fpair pos (XFn2 _ k a b)
+    = Pair R_function_expr pos (pos + length (ftext (XFn2 _ k a b)))
+           [Pair R_function_name pos (pos + length (fn2_name k)) [];
+            argpair (pos + length (fn2_name k) + 1) a;
+            argpair (pos + length (fn2_name k) + 1 + length (argtext a) + 1) b].
+  Proof. reflexivity. Qed.
+  Lemma argpair_lit pos l :
+    argpair pos (XALit _ l) = Pair R_function_argument pos (pos + length (xlit_text l)) [xlit_pair pos l].
+  Proof. reflexivity. Qed.
+  Lemma argpair_query pos abs q :
+    argpair pos (XAQuery _ abs q)
+    = let en := pos + length ((if abs then 36%N else 64%N) :: gsegs_text q) in
+      Pair R_function_argument pos en
+           [Pair R_test pos en [Pair (if abs then R_jp_query else R_rel_query) pos en
+                                     [Pair R_segments (pos + 1) en (GenParse.gsegs_pairs sel stext spair (pos + 1) q)]]].
+  Proof. reflexivity. Qed.
+  Lemma argpair_fn pos f :
+    argpair pos (XAFn _ f)
+    = Pair R_function_argument pos (pos + length (ftext f)) [Pair R_test pos (pos + length (ftext f)) [fpair pos f]].
+  Proof. reflexivity. Qed.
+
+  Definition fn1_k (k : fn1) (a : fnarg) : tfun :=
+    match k with FLength => FnLength a | FCount => FnCount a | FValue => FnValue a end.
+  Definition fn2_k (k : fn2) (a b : fnarg) : tfun :=
+    match k with FMatch => FnMatch a b | FSearch => FnSearch a b end.
+  Fixpoint fn_ast (f : xfn) : tfun :=
+    match f with
+    | XFn1 _ k a => fn1_k k (arg_ast a)
+    | XFn2 _ k a b => fn2_k k (arg_ast a) (arg_ast b)
+    end
+  with arg_ast (a : xarg) : fnarg :=
+    match a with
+    | XALit _ l => ArgLit (lit_ast l)
+    | XAQuery _ abs q => ArgTest ((if abs then TAbs else TRel) (segments_of_list (map gseg_ast q)))
+    | XAFn _ f => ArgTest (TFn (fn_ast f))
+    end.
+
+  (* well-typed calls: FnArg::is_value_type / is_nodes_type of parser/model.rs on the arguments *)
+  Definition fn1_typed (k : fn1) (a : fnarg) : Prop :=
+    match k with FLength => is_value_type a = true | _ => is_nodes_type a = true end.
+  Fixpoint fgood (f : xfn) : Prop :=
+    match f with
+    | XFn1 _ k a => arggood a /\ fn1_typed k (arg_ast a)
+    | XFn2 _ k a b => arggood a /\ arggood b /\ is_value_type (arg_ast a) = true /\ is_value_type (arg_ast b) = true /\ patok (arg_ast b)
+    end
+  with arggood (a : xarg) : Prop :=
+    match a with
+    | XALit _ l => xlit_good l
+    | XAQuery _ _ q => Forall gseg_good q
+    | XAFn _ f => fgood f
+    end.
+
+  Fixpoint ffuel (f : xfn) : nat :=
+    match f with
+    | XFn1 _ _ a => S (argfuel a)
+    | XFn2 _ _ a b => S (Nat.max (argfuel a) (argfuel b))
+    end
+  with argfuel (a : xarg) : nat :=
+    match a with
+    | XALit _ _ => 1
+    | XAQuery _ _ q => 6 + qfuel q
+    | XAFn _ f => S (ffuel f)
+    end.
+
+  Definition arg_walk (fu : nat) (arg : pair rname) : option fnarg :=
+    bind (next_down arg) (fun next =>
+      if is_rule R_literal next then bind (literal_of inp next) (fun l => Some (ArgLit l))
+      else if is_rule R_test next then bind (b_test inp fu next) (fun t => Some (ArgTest t))
+      else if is_rule R_logical_expr next then bind (b_logical_expr inp fu next) (fun e => Some (ArgFilter e))
+      else None).
+
+  Definition Bf (f : xfn) : Prop :=
+    forall fu pre rest, inp = pre ++ ftext f ++ rest -> fgood f -> ffuel f <= fu ->
+      b_function_expr inp fu (fpair (length pre) f) = Some (fn_ast f).
+  Definition Ba (a : xarg) : Prop :=
+    forall fu pre rest, inp = pre ++ argtext a ++ rest -> arggood a -> argfuel a <= fu ->
+      arg_walk fu (argpair (length pre) a) = Some (arg_ast a).
+
+  Lemma nth_error_mid {A} (l1 : list A) x l2 : nth_error (l1 ++ x :: l2) (length l1) = Some x.
+  Proof. induction l1 as [|y l1 IH]; [reflexivity|exact IH]. Qed.
+
+  Lemma try_new_fn1 k a : fn1_typed k a -> tfun_try_new (fn1_name k) [a] = Some (fn1_k k a).
+  Proof. destruct k; cbn [fn1_typed fn1_name fn1_k]; intros H; unfold tfun_try_new; vm_compute str_eqb; cbv iota; rewrite H; reflexivity. Qed.
+  Lemma try_new_fn2 k a b : is_value_type a = true -> is_value_type b = true ->
+    tfun_try_new (fn2_name k) [a; b] = Some (fn2_k k a b).
+  Proof. destruct k; cbn [fn2_name fn2_k]; intros Ha Hb; unfold tfun_try_new; vm_compute str_eqb; cbv iota; rewrite Ha, Hb; reflexivity. Qed.
+
+  Lemma bfn_all : (forall f, Bf f) /\ (forall a, Ba a).
+  Proof.
+    apply (xfn_xarg_ind sel).
+    - (* one argument *)
+      intros k a IHa fu pre rest Ei [Hga Hty] Hf. change (ffuel (XFn1 _ k a)) with (S (argfuel a)) in Hf. destruct fu as [|fu]; [lia|].
+      change (fn_ast (XFn1 _ k a)) with (fn1_k k (arg_ast a)).
+      rewrite fpair_fn1. rewrite ftext_fn1 in *. repeat (rewrite <- app_assoc in Ei; cbn [app] in Ei).
+      rewrite b_function_expr_step. cbn [p_kids].
+      rewrite (p_str_at inp _ _ _ _ pre (fn1_name k ++ 40%N :: argtext a ++ [41%N]) rest); [|rewrite Ei; list_eq|reflexivity|leq].
+      rewrite (p_str_at inp _ _ _ _ pre (fn1_name k) (40%N :: argtext a ++ 41%N :: rest) Ei eq_refl eq_refl).
+      rewrite nth_error_mid. change (negb (N.eqb 40 40)) with false. cbv iota.
+      cbn [mapM]. fold (arg_walk fu).
+      replace (length pre + length (fn1_name k) + 1) with (length (pre ++ fn1_name k ++ [40%N])) by leq.
+      assert (Ha : arg_walk fu (argpair (length (pre ++ fn1_name k ++ [40%N])) a) = Some (arg_ast a))
+        by (apply (IHa fu (pre ++ fn1_name k ++ [40%N]) (41%N :: rest)); [rewrite Ei; list_eq|exact Hga|lia]).
+      unfold arg_walk in Ha. rewrite Ha.
+      cbn [bind]. apply try_new_fn1. exact Hty.
+    - (* two arguments *)
+      intros k a IHa b IHb fu pre rest Ei [Hga [Hgb [Hta [Htb _]]]] Hf.
+      change (ffuel (XFn2 _ k a b)) with (S (Nat.max (argfuel a) (argfuel b))) in Hf. destruct fu as [|fu]; [lia|].
+      change (fn_ast (XFn2 _ k a b)) with (fn2_k k (arg_ast a) (arg_ast b)).
+      rewrite fpair_fn2. rewrite ftext_fn2 in *. repeat (rewrite <- app_assoc in Ei; cbn [app] in Ei).
+      rewrite b_function_expr_step. cbn [p_kids].
+      rewrite (p_str_at inp _ _ _ _ pre (fn2_name k ++ 40%N :: argtext a ++ 44%N :: argtext b ++ [41%N]) rest); [|rewrite Ei; list_eq|reflexivity|leq].
+      rewrite (p_str_at inp _ _ _ _ pre (fn2_name k) (40%N :: argtext a ++ 44%N :: argtext b ++ 41%N :: rest) Ei eq_refl eq_refl).
+      rewrite nth_error_mid. change (negb (N.eqb 40 40)) with false. cbv iota.
+      cbn [mapM]. fold (arg_walk fu).
+      replace (length pre + length (fn2_name k) + 1) with (length (pre ++ fn2_name k ++ [40%N])) by leq.
+      assert (Ha : arg_walk fu (argpair (length (pre ++ fn2_name k ++ [40%N])) a) = Some (arg_ast a))
+        by (apply (IHa fu (pre ++ fn2_name k ++ [40%N]) (44%N :: argtext b ++ 41%N :: rest)); [rewrite Ei; list_eq|exact Hga|lia]).
+      unfold arg_walk in Ha. rewrite Ha. cbn [bind].
+      replace (length (pre ++ fn2_name k ++ [40%N]) + length (argtext a) + 1)
+        with (length (pre ++ fn2_name k ++ 40%N :: argtext a ++ [44%N])) by leq.
+      assert (Hb : arg_walk fu (argpair (length (pre ++ fn2_name k ++ 40%N :: argtext a ++ [44%N])) b) = Some (arg_ast b))
+        by (apply (IHb fu (pre ++ fn2_name k ++ 40%N :: argtext a ++ [44%N]) (41%N :: rest)); [rewrite Ei; list_eq|exact Hgb|lia]).
+      unfold arg_walk in Hb. rewrite Hb.
+      cbn [bind]. apply try_new_fn2; assumption.
+    - (* literal *)
+      intros l fu pre rest Ei Hg Hf. change (argtext (XALit _ l)) with (xlit_text l) in Ei.
+      change (arggood (XALit _ l)) with (xlit_good l) in Hg. change (arg_ast (XALit _ l)) with (ArgLit (lit_ast l)).
+      rewrite argpair_lit. unfold arg_walk. cbn [next_down p_kids bind]. unfold xlit_pair at 1. rules. fold (xlit_pair (length pre) l).
+      rewrite (b_literal_frag inp pre l rest Ei Hg). reflexivity.
+    - (* query *)
+      intros abs q fu pre rest Ei Hq Hf. change (argtext (XAQuery _ abs q)) with ((if abs then 36%N else 64%N) :: gsegs_text q) in Ei.
+      change (arggood (XAQuery _ abs q)) with (Forall gseg_good q) in Hq.
+      change (arg_ast (XAQuery _ abs q)) with (ArgTest ((if abs then TAbs else TRel) (segments_of_list (map gseg_ast q)))).
+      change (argfuel (XAQuery _ abs q)) with (6 + qfuel q) in Hf.
+      rewrite argpair_query. cbv zeta.
+      destruct fu as [|[|[|[|[|[|fu]]]]]]; try lia.
+      unfold arg_walk. cbn [next_down p_kids bind]. rules.
+      rewrite b_test_step. cbn [next_down p_kids bind].
+      assert (Hseg : b_segments inp (S (S (S (S (S fu)))))
+                       (Pair R_segments (length pre + 1)
+                             (length pre + length ((if abs then 36%N else 64%N) :: gsegs_text q))
+                             (GenParse.gsegs_pairs sel stext spair (length pre + 1) q))
+                     = Some (segments_of_list (map gseg_ast q))).
+      { replace (length pre + 1) with (length (pre ++ [if abs then 36%N else 64%N])) by leq.
+        apply (gb_segments sel stext spair sgood sast sfuel inp b_sel fu _ q rest); [rewrite Ei; list_eq|exact Hq|lia]. }
+      destruct abs; rules; cbn [next_down p_kids bind]; rewrite Hseg; reflexivity.
+    - (* nested call *)
+      intros f IHf fu pre rest Ei Hg Hf. change (argtext (XAFn _ f)) with (ftext f) in Ei.
+      change (arggood (XAFn _ f)) with (fgood f) in Hg. change (arg_ast (XAFn _ f)) with (ArgTest (TFn (fn_ast f))).
+      change (argfuel (XAFn _ f)) with (S (ffuel f)) in Hf. rewrite argpair_fn.
+      destruct fu as [|fu]; [lia|].
+      unfold arg_walk. cbn [next_down p_kids bind]. rules.
+      rewrite b_test_step. cbn [next_down p_kids bind].
+      assert (Hr : is_rule R_function_expr (fpair (length pre) f) = true) by (destruct f; reflexivity).
+      assert (Hj : is_rule R_jp_query (fpair (length pre) f) = false) by (destruct f; reflexivity).
+      assert (Hq : is_rule R_rel_query (fpair (length pre) f) = false) by (destruct f; reflexivity).
+      rewrite Hj, Hq, Hr. rewrite (IHf fu pre rest Ei Hg); [reflexivity|lia].
+  Qed.
+
+  Lemma bfn f : Bf f.
+  Proof. apply bfn_all. Qed.
+
+  (* comparables, function calls included *)
+  Definition gcmp_ast (c : xcmp sel) : comparable :=
+    match c with XCB _ c => cmp_ast c | XCF _ f => CFn (fn_ast f) end.
+  Definition gcmp_good (c : xcmp sel) : Prop :=
+    match c with XCB _ c => xcmpb_good c | XCF _ f => fgood f /\ is_comparable_fn (fn_ast f) = true end.
+  Definition gcmp_fuel (c : xcmp sel) : nat :=
+    match c with XCB _ _ => 1 | XCF _ f => S (ffuel f) end.
+
+  Lemma gb_comparable fu pre c rest :
+    inp = pre ++ gcmp_text sel stext c ++ rest -> gcmp_good c -> gcmp_fuel c <= fu ->
+    b_comparable inp fu (gcmp_pair sel stext spair (length pre) c) = Some (gcmp_ast c).
+  Proof.
+    intros Ei Hc Hf. destruct c as [c|f]; cbn [gcmp_text gcmp_good gcmp_fuel gcmp_pair gcmp_ast] in *.
+    - destruct fu as [|fu]; [lia|]. apply (b_comparable_frag inp fu pre c rest Ei Hc).
+    - destruct Hc as [Hg Hcf]. destruct fu as [|fu]; [lia|]. rewrite b_comparable_step. cbn [next_down p_kids bind].
+      assert (Hr : is_rule R_function_expr (fpair (length pre) f) = true) by (destruct f; reflexivity).
+      assert (Hl : is_rule R_literal (fpair (length pre) f) = false) by (destruct f; reflexivity).
+      assert (Hs : is_rule R_singular_query (fpair (length pre) f) = false) by (destruct f; reflexivity).
+      rewrite Hl, Hs, Hr. rewrite (bfn f fu pre rest Ei Hg) by lia. cbn [bind]. rewrite Hcf. reflexivity.
+  Qed.
+
   Fixpoint atom_ast (a : xatom) : atom :=
     match a with
     | XParen _ neg e =>
@@ -178,7 +381,8 @@ Section BE.
                    (map (fun c => single_or (fun l => FAnd (filters_of_list l)) (map (fun a => FAtom (atom_ast a)) c)) e)) neg
     | XTest _ neg abs q =>
         ATest ((if abs then TAbs else TRel) (segments_of_list (map gseg_ast q))) neg
-    | XCmp _ o l r => ACmp o (cmp_ast l) (cmp_ast r)
+    | XCmp _ o l r => ACmp o (gcmp_ast l) (gcmp_ast r)
+    | XFnTest _ neg f => ATest (TFn (fn_ast f)) neg
     end.
   Definition and_ast (c : list xatom) : filter :=
     single_or (fun l => FAnd (filters_of_list l)) (map (fun a => FAtom (atom_ast a)) c).
@@ -188,13 +392,15 @@ Section BE.
   Inductive agood : xatom -> Prop :=
   | agood_paren neg e : e <> [] -> (forall c, In c e -> c <> [] /\ forall a, In a c -> agood a) -> agood (XParen _ neg e)
   | agood_test neg abs q : Forall gseg_good q -> agood (XTest _ neg abs q)
-  | agood_cmp o l r : xcmpb_good l -> xcmpb_good r -> agood (XCmp _ o l r).
+  | agood_cmp o l r : gcmp_good l -> gcmp_good r -> agood (XCmp _ o l r)
+  | agood_fn neg f : fgood f -> is_comparable_fn (fn_ast f) = false -> agood (XFnTest _ neg f).
 
   Fixpoint afuel (a : xatom) : nat :=
     match a with
     | XParen _ _ e => S (S (S (lmax (fun c => lmax afuel c) e)))
     | XTest _ _ _ q => 7 + qfuel q
-    | XCmp _ _ _ _ => 2
+    | XCmp _ _ l r => S (Nat.max (gcmp_fuel l) (gcmp_fuel r))
+    | XFnTest _ _ f => 2 + ffuel f
     end.
   Definition cfuel (c : list xatom) : nat := lmax afuel c.
   Definition efuel (e : list (list xatom)) : nat := lmax cfuel e.
@@ -223,7 +429,9 @@ Section BE.
     rewrite Ei. rewrite (join_cons sep txt y l). cbn [flat_map]. repeat rewrite <- app_assoc. reflexivity.
   Qed.
 
-  Lemma agood_cmp_inv o l r : agood (XCmp _ o l r) -> xcmpb_good l /\ xcmpb_good r.
+  Lemma agood_fn_inv neg f : agood (XFnTest _ neg f) -> fgood f /\ is_comparable_fn (fn_ast f) = false.
+  Proof. intros H. inversion H. split; assumption. Qed.
+  Lemma agood_cmp_inv o l r : agood (XCmp _ o l r) -> gcmp_good l /\ gcmp_good r.
   Proof. intros H. inversion H. split; assumption. Qed.
   Lemma agood_test_inv neg abs q : agood (XTest _ neg abs q) -> Forall gseg_good q.
   Proof. intros H. inversion H. assumption. Qed.
@@ -237,13 +445,14 @@ Section BE.
   Lemma batom_cmp o l r : Batom (XCmp _ o l r).
   Proof.
     intros f pre rest Ei Hg Hf. destruct (agood_cmp_inv o l r Hg) as [Hl Hr]. cbn [afuel] in Hf.
-    destruct f as [|[|f]]; try lia. cbn [FilterParse.atext FilterParse.apair atom_ast] in *.
-    rewrite b_filter_atom_step. cbn [next_down p_kids bind]. unfold xcmp_pair. rules. cbn [p_kids].
-    unfold xcmp_text in Ei. repeat rewrite <- app_assoc in Ei.
-    rewrite (b_comparable_frag inp f pre l (op_text o ++ xcmpb_text r ++ rest) Ei Hl). cbn [bind].
-    replace (length pre + length (xcmpb_text l) + length (op_text o)) with (length (pre ++ xcmpb_text l ++ op_text o)) by leq.
-    rewrite (b_comparable_frag inp f (pre ++ xcmpb_text l ++ op_text o) r rest); [|rewrite Ei; list_eq|exact Hr]. cbn [bind].
-    rewrite (p_str_at inp _ _ _ _ (pre ++ xcmpb_text l) (op_text o) (xcmpb_text r ++ rest)); [|rewrite Ei; list_eq|leq|leq].
+    destruct f as [|f]; try lia. cbn [FilterParse.atext FilterParse.apair atom_ast] in *.
+    rewrite b_filter_atom_step. cbn [next_down p_kids bind]. unfold gxcmp_pair. rules. cbn [p_kids].
+    unfold gxcmp_text in Ei. repeat rewrite <- app_assoc in Ei.
+    set (tl := gcmp_text sel stext l) in *. set (tr := gcmp_text sel stext r) in *.
+    rewrite (gb_comparable f pre l (op_text o ++ tr ++ rest) Ei Hl) by lia. cbn [bind].
+    replace (length pre + length tl + length (op_text o)) with (length (pre ++ tl ++ op_text o)) by leq.
+    rewrite (gb_comparable f (pre ++ tl ++ op_text o) r rest); [|rewrite Ei; list_eq|exact Hr|lia]. cbn [bind].
+    rewrite (p_str_at inp _ _ _ _ (pre ++ tl) (op_text o) (tr ++ rest)); [|rewrite Ei; list_eq|leq|leq].
     rewrite cmp_op_of_text. reflexivity.
   Qed.
 
@@ -277,6 +486,24 @@ Section BE.
     { replace (length pre + length (bang neg) + 1) with (length (pre ++ bang neg ++ [if abs then 36%N else 64%N])) by leq.
       apply (gb_segments sel stext spair sgood sast sfuel inp b_sel f _ q rest); [rewrite Ei; list_eq|exact Hq|lia]. }
     destruct abs; rules; cbn [next_down p_kids bind]; rewrite Hseg; reflexivity.
+  Qed.
+
+  Lemma batom_fntest neg f : Batom (XFnTest _ neg f).
+  Proof.
+    intros fu pre rest Ei Hg Hf. destruct (agood_fn_inv neg f Hg) as [Hgf Hnc]. cbn [afuel] in Hf.
+    destruct fu as [|[|fu]]; try lia.
+    cbn [FilterParse.atext FilterParse.apair atom_ast] in *.
+    rewrite b_filter_atom_step. cbn [next_down p_kids bind]. rules. cbn [p_kids].
+    rewrite existsb_not by reflexivity.
+    rewrite (fold_not_then (is_rule R_test) (b_test inp (S fu)) neg (length pre)); [|reflexivity|reflexivity].
+    rewrite b_test_step. cbn [next_down p_kids bind].
+    assert (Hr : is_rule R_function_expr (fpair (length pre + length (bang neg)) f) = true) by (destruct f; reflexivity).
+    assert (Hj : is_rule R_jp_query (fpair (length pre + length (bang neg)) f) = false) by (destruct f; reflexivity).
+    assert (Hq : is_rule R_rel_query (fpair (length pre + length (bang neg)) f) = false) by (destruct f; reflexivity).
+    rewrite Hj, Hq, Hr.
+    replace (length pre + length (bang neg)) with (length (pre ++ bang neg)) by leq.
+    rewrite (bfn f fu (pre ++ bang neg) rest); [|rewrite Ei; list_eq|exact Hgf|lia].
+    cbn [bind]. rewrite Hnc. reflexivity.
   Qed.
 
   Lemma lmax_le {A} (f : A -> nat) l x : In x l -> f x <= lmax f l.
@@ -348,10 +575,11 @@ Section BE.
   Proof.
     induction n as [|n IH]; intros a Hs.
     - destruct a; cbn [asize] in Hs; lia.
-    - destruct a as [neg e|neg abs q|o l r].
+    - destruct a as [neg e|neg abs q|o l r|neg f].
       + apply batom_paren. intros c Hc a Ha. apply IH. pose proof (asize_in_paren sel neg e c a Hc Ha). lia.
       + apply batom_test.
       + apply batom_cmp.
+      + apply batom_fntest.
   Qed.
 
   (* the filter selector *)
@@ -391,11 +619,12 @@ Section BLevel.
   Variable spair : nat -> sel -> pair rname.
   Variable sgood : sel -> Prop.
   Variable sast : sel -> selector.
+  Variable patok : fnarg -> Prop.
   Variable sfuel : sel -> nat.
   Hypothesis HB : BSpec sel stext spair sgood sast sfuel.
 
   Definition sgood' (s : sel' sel) : Prop :=
-    match s with inl p => plain_good p | inr e => egood sel sgood e end.
+    match s with inl p => plain_good p | inr e => egood sel sgood sast patok e end.
   Definition sast' (s : sel' sel) : selector :=
     match s with inl p => sel_ast p | inr e => SelFilter (or_ast sel sast e) end.
   Definition sfuel' (s : sel' sel) : nat :=
@@ -405,18 +634,18 @@ Section BLevel.
   Proof.
     intros inp f pre [p|e] rest Ei Hg Hf; cbn [stext' spair' sgood' sast' sfuel'] in *.
     - destruct Hg as [Hs Hr]. apply (b_selector_frag inp f pre p rest Ei Hs Hr).
-    - apply (b_filter_selector sel stext spair sgood sast sfuel inp (HB inp) f pre e rest Ei Hg Hf).
+    - apply (b_filter_selector sel stext spair sgood sast patok sfuel inp (HB inp) f pre e rest Ei Hg Hf).
   Qed.
 End BLevel.
 
-Fixpoint sgoodT (n : nat) : SelT n -> Prop :=
-  match n with O => plain_good | S k => sgood' (SelT k) (sgoodT k) end.
 Fixpoint sastT (n : nat) : SelT n -> selector :=
   match n with O => sel_ast | S k => sast' (SelT k) (sastT k) end.
+Fixpoint sgoodT (patok : fnarg -> Prop) (n : nat) : SelT n -> Prop :=
+  match n with O => plain_good | S k => sgood' (SelT k) (sgoodT patok k) (sastT k) patok end.
 Fixpoint sfuelT (n : nat) : SelT n -> nat :=
   match n with O => (fun _ => 0) | S k => sfuel' (SelT k) (sfuelT k) end.
 
-Theorem tower_bspec n : BSpec (SelT n) (stextT n) (spairT n) (sgoodT n) (sastT n) (sfuelT n).
+Theorem tower_bspec patok n : BSpec (SelT n) (stextT n) (spairT n) (sgoodT patok n) (sastT n) (sfuelT n).
 Proof.
   induction n as [|n IH]; [exact plain_bspec|]. cbn [SelT stextT spairT sgoodT sastT sfuelT]. apply level_bspec. exact IH.
 Qed.
